@@ -86,4 +86,29 @@ def storeNeverFails (s : Sys) : List Action → Bool
   | [] => true
   | a :: rest => !stepStoreFail s a && storeNeverFails (step s a) rest
 
+/-! ## Consistency -/
+
+/-- first conjunct of `Consistency`: the change that is the committed revision (`IsChangeCommitted(i)`
+    is `configuration.committed.revision = i`; the spec's "and no later `j` is committed" is kept
+    although it follows from that) has each of its values in `configuration.committed.values`, which
+    here is what `configurations.Get` returns. -/
+def ConsistencyCommitted (s : Sys) : Prop :=
+  ∀ i t, getTx s i = some t → s.cfg.cRevision = i →
+    (¬ ∃ j tj, getTx s j = some tj ∧ j > i ∧ s.cfg.cRevision = j) →
+    ∀ kv ∈ t.values, vLookup (view s).cVals kv.1 = some kv.2
+
+/-- second conjunct of `Consistency`, the record part: the change that is the applied revision has
+    each of its values in `configuration.applied.values`. -/
+def ConsistencyApplied (s : Sys) : Prop :=
+  ∀ i t, getTx s i = some t → s.cfg.aRevision = i →
+    (¬ ∃ j tj, getTx s j = some tj ∧ j > i ∧ s.cfg.aRevision = j) →
+    ∀ kv ∈ t.values, vLookup (view s).aVals kv.1 = some kv.2
+
+/-- `Consistency` without its innermost conjunct about `target.values`: that one is guarded by
+    `configuration.applied.target = target.id` (the incarnation of the device the configuration was
+    last pushed to), which no record of the implementation holds; the monitor of the
+    correspondence harness evaluates it on the real fake device, gated by the history of device
+    restarts and re-synchronisations. -/
+def Consistency (s : Sys) : Prop := ConsistencyCommitted s ∧ ConsistencyApplied s
+
 end OnosVerif.V3
